@@ -205,7 +205,7 @@ def run_check(prop, tier):
         api_cases, api_cov = checks_apiops.run_for(prop, tier, _vh)
         cases_to_confirm += api_cases
     verdict = findings.adjudicate(prop, cases_to_confirm,
-                                  lambda c: checks_apiops.confirm_fn(_vh)(c) if "api_case" in c else txnfam.confirm(_vh, c))
+                                  lambda c: checks_apiops.confirm_fn(_vh)(c) if ("api_case" in c or "api_random" in c) else txnfam.confirm(_vh, c))
     # vacuity guard: a scripted scenario that never fired checks nothing
     scen = {}
     for r in results:
